@@ -16,6 +16,11 @@ CHECKS = {
    "Arbitrary byte strings, structured mutations of valid frames (every truncation point), and the exhaustive cross product of boundary values for the three 64-bit length fields (incl. wrapping sums and unallocatable sizes) are fed to all 5 slice parsers and all 4 stream readers; never panic/abort, Ok iff the reference parser says a whole consistent frame is present, payload identical to the input bytes, exactly one frame consumed.",
    "Stream-reader cases keep each declared payload <= 16 MiB or >= 2^62 (the property's own memory-independence restriction); aborts are observed as child signal exits.",
    "DESIGN.md §4 C02"),
+ "C03": ("exploration",
+   "property-based generation of pipelined request sequences against four dispatch paths built from one router factory; envelope reference model + in-process twin as oracle; completeness by half-close and read-to-EOF; cross-transport differential",
+   "Generated sequences (1..64 requests over the product of versions, query formats, registered/unregistered/non-UTF-8/empty queries for every built-in handler kind, body formats, well-formed/truncated/random/empty bodies, notify 0/1, in generated TCP segmentations, with and without middleware) are sent to Server, AsyncServer and the WebSocket server (inline and off-reader routes): exact rejection codes, no response to notifies, exactly one response per other request (nothing extra after half-close), id and query echo, request order for inline responses, handler observation logs equal to an in-process twin (exactly once / never), and identical response fields on every path.",
+   "notify flag 0/1 only; handlers return; the handler's own answer is predicted by running the same handler in-process.",
+   "DESIGN.md §4 C03"),
  "C04": ("exploration",
    "property-based + bounded-exhaustive schedule generation against a scripted peer: all K! reply orders (K<=5 quick / 6 thorough) for three clients, random valid interleavings of receive/answer events up to K=64 with injected unknown-id, duplicate and notify-reuse frames; self-identifying response bodies as oracle",
    "Each of K concurrent calls must return the body that names its own path, batch results must be positional, injected notifies must reach only the subscriber (exactly once), and all ids on a connection must be distinct, for every generated reply order and injection pattern on Client, AsyncClient and WebSocketClient (async clients on a multi-thread runtime so reader and callers run in parallel).",
